@@ -478,7 +478,7 @@ class Gen:
         choices = []
         if owner.kind == "opaque":
             choices.append("self_op")
-        choices += ["param_op", "param_slice", "param_str", "static_str", "static_slice"]
+        choices += ["param_op", "param_slice", "param_str", "static_str", "static_slice", "result_ref", "result_ref"]
         ch = self.pick(choices)
         lifetimes = ["a"]
         if ch == "self_op":
@@ -489,6 +489,13 @@ class Gen:
             mut = self.chance(0.2)
             params = params + [("bo", ("oref", op, mut, "a", False))]
             ret = ("oref", op, mut, "a", self.chance(0.4))
+        elif ch == "result_ref" and self.opaques:
+            # borrowed opaques inside Result arms: Result<&'a Op, &'a Op>, Result<(), &'a Op>, Result<&'a Op, E>
+            op = self.pick(self.opaques).name
+            params = params + [("bo", ("oref", op, False, "a", False))]
+            ref = ("oref", op, False, "a", False)
+            other = self.pick([("unit",), ("prim", self.pick(self.prims())), ref])
+            ret = ("result", ref, other, "std") if self.chance(0.5) else ("result", other, ref, "std")
         elif ch == "param_slice":
             pr = self.pick(SLICE_PRIMS[:-1])
             params = params + [("bs", ("slice", pr, False, "a", "std"))]
